@@ -1,0 +1,33 @@
+//go:build verif
+
+package signing
+
+// Contracts for the deductive checker in /verif (comment-only; compiled only under the verif tag).
+
+// Boldyreva aggregation releases a signature only if EVERY component of EVERY partial signature verified
+// against the corresponding component of the sender's public key share (under the message variant of the
+// configured rogue-key mode), the signers are accepted by the MSP, and the message is non-empty.
+//@ pure func psigAt(ps V, a Int) V = as(seqat2(ps.Iter(), a), *boldyreva02.PartialSignature)
+//@ pure func senderAt(ps V, a Int) Int = seqat(ps.Iter(), a, int)
+//@ pure func pkComp(shares V, sender sharing.ID, t Int) V = res(bls.NewPublicKey(res(shares.Get(sender), 0).Value()[t]), 0)
+//@ pure func compOK(verifier V, shares V, ps V, msg []byte, a Int, t Int) bool = verifier.Verify(psigAt(ps, a).SigmaI[t], pkComp(shares, senderAt(ps, a), t), msg) == nil
+//@ pure func senderOK(verifier V, shares V, ps V, msg []byte, a Int) bool = len(psigAt(ps, a).SigmaI) == len(res(shares.Get(senderAt(ps, a)), 0).Value()) && (forall t Int :: 0 <= t && t < len(psigAt(ps, a).SigmaI) ==> compOK(verifier, shares, ps, msg, a, t))
+
+//@ func (*Aggregator).Aggregate
+//@   property C01, C04
+//@   opt trustpre=on
+//@   let im = ite(A.targetRogueKeyAlg == bls.MessageAugmentation, res(bls.AugmentMessage(message, A.PublicKeyMaterial().PublicKeyValue()), 0), message)
+//@   ensures err == nil ==> len(message) != 0
+//@   ensures err == nil ==> forall a Int :: 0 <= a && a < seqlen(partialSigs.Iter()) ==> senderOK(partialSignatureVerifier, publicKeyShares, partialSigs, im, a)
+//@   loop range(partialSigs.Iter())
+//@     invariant forall a Int :: 0 <= a && a < $i ==> senderOK(partialSignatureVerifier, publicKeyShares, partialSigs, im, a)
+//@   loop range(publicKeyShare.Value())
+//@     invariant len(partialPublicKey) == len(publicKeyShare.Value())
+//@     invariant forall t Int :: 0 <= t && t < i ==> partialPublicKey[t] == res(bls.NewPublicKey(publicKeyShare.Value()[t]), 0)
+//@   loop range(partialPublicKey)
+//@     invariant true
+//@   loop range(partialPublicKey)#2
+//@     invariant forall t Int :: 0 <= t && t < i ==> partialSignatureVerifier.Verify(psig.SigmaI[t], partialPublicKey[t], internalMessage) == nil
+//@   assert before "sigShare, err := feldman.NewLiftedShare(sender": internalMessage == im
+//@   assert before "sigShare, err := feldman.NewLiftedShare(sender": len(partialPublicKey) == len(psig.SigmaI) && (forall t Int :: 0 <= t && t < len(psig.SigmaI) ==> partialPublicKey[t] == pkComp(publicKeyShares, sender, t))
+//@   assert before "sigShare, err := feldman.NewLiftedShare(sender": forall t Int :: 0 <= t && t < len(psig.SigmaI) ==> compOK(partialSignatureVerifier, publicKeyShares, partialSigs, im, $i, t)
